@@ -11,7 +11,7 @@ import PyrollModel.Impl
           formula, `surface_y` = a translated formula of one contour ordinate and one grid abscissa), linear
           interpolation on a polyline (`scipy.interpolate.interp1d`, kind linear, extrapolating) and the tensor-product
           (bi)linear interpolation on a rectilinear grid (`scipy.interpolate.interpn`, method linear).
-  Part 3  spline groove: boundary stripping (the kind the translator found), centring by a translated list term, half width / width / usable width / depth
+  Part 3  spline groove: face test and boundary stripping (the kinds the translator found), centring by a translated list term, half width / width / usable width / depth
           as translated list terms, depth function = `interp1` of the centred polyline; `Refines` = insertion of collinear
           vertices.
 
@@ -54,6 +54,8 @@ inductive LTerm where
   | first (k : Nat)          -- pts[0, k]
   | last (k : Nat)           -- pts[-1, k]
   | nat (n : Nat)
+  | dec (m e : Nat)          -- decimal literal `m · 10^(-e)` (`1e-9`)
+  | max (a b : LTerm)        -- `np.max` of two terms (`np.max(np.ptp(pts, axis=0))` = max of the two column extents)
   | add (a b : LTerm)
   | sub (a b : LTerm)
   | mul (a b : LTerm)
@@ -181,6 +183,8 @@ def LTerm.eval (pts : List (α × α)) : LTerm → α
   | .first k => (col k pts).headD nan
   | .last k => (col k pts).getLastD nan
   | .nat n => PyNum.nat n
+  | .dec m e => PyNum.dec m e
+  | .max a b => maxL [a.eval pts, b.eval pts]
   | .add a b => a.eval pts + b.eval pts
   | .sub a b => a.eval pts - b.eval pts
   | .mul a b => a.eval pts * b.eval pts
@@ -198,32 +202,54 @@ def rollL : List α → List α
 
 /-- which boundary stripping the source performs (read by the translator) -/
 inductive StripKind where
-  /-- mask `~(isclose(roll(y, 1), 0) & isclose(roll(y, -1), 0))`: every vertex whose two cyclic neighbours lie on the face line -/
+  /-- mask `~(onface(roll(y, 1)) & onface(roll(y, -1)))`: every vertex whose two cyclic neighbours lie on the face line -/
   | bothNeighbours
   /-- slice `[first non-zero − 1 : last non-zero + 2]`: the horizontal runs at both ends only -/
   | faceRuns
   deriving Repr, DecidableEq, Inhabited
 
-/-- a vertex is dropped when both cyclic neighbours have an ordinate close to 0 -/
-def stripBoth (pts : List (α × α)) : List (α × α) :=
+/-- how the source decides that an ordinate lies on the face line `y = 0` (read by the translator) -/
+inductive FaceTest where
+  /-- `np.isclose(y, 0)` with numpy's default tolerances (absolute `1e-8`) -/
+  | isclose
+  /-- `np.abs(y) <= tol` with `tol` a term over the vertex array AS GIVEN (before stripping), e.g.
+      `1e-9 * np.max(np.ptp(contour_points, axis=0))`: relative to the extent of the contour -/
+  | within (tol : LTerm)
+  deriving Repr, DecidableEq, Inhabited
+
+/-- the tolerance of the face test for the polyline `pts` -/
+def FaceTest.tol (ft : FaceTest) (pts : List (α × α)) : α :=
+  match ft with
+  | .isclose => PyNum.dec 1 8
+  | .within t => t.eval pts
+
+/-- the face test for the polyline `pts`, as a predicate on ordinates -/
+def FaceTest.onFace (ft : FaceTest) (pts : List (α × α)) (y : α) : Bool :=
+  match ft with
+  | .isclose => GrooveRep.isclose y (PyNum.nat 0)
+  | .within t => PyNum.le (PyNum.abs y) (t.eval pts)
+
+/-- a vertex is dropped when both cyclic neighbours have an ordinate on the face line -/
+def stripBoth (f : α → Bool) (pts : List (α × α)) : List (α × α) :=
   let ys := col 1 pts
-  ((pts.zip ((rollR ys).zip (rollL ys))).filter fun t =>
-      !(isclose t.2.1 (PyNum.nat 0) && isclose t.2.2 (PyNum.nat 0))).map (·.1)
+  ((pts.zip ((rollR ys).zip (rollL ys))).filter fun t => !(f t.2.1 && f t.2.2)).map (·.1)
 
 /-- leading vertices are dropped as long as the NEXT vertex still lies on the face line -/
-def dropFaceRun : List (α × α) → List (α × α)
-  | p :: q :: rest => if isclose q.2 (PyNum.nat 0) then dropFaceRun (q :: rest) else p :: q :: rest
+def dropFaceRun (f : α → Bool) : List (α × α) → List (α × α)
+  | p :: q :: rest => if f q.2 then dropFaceRun f (q :: rest) else p :: q :: rest
   | l => l
 
-/-- `pts[inner[0] - 1 : inner[-1] + 2]` with `inner` the indices of the ordinates not close to 0 (all of `pts` if none) -/
-def stripFaceRuns (pts : List (α × α)) : List (α × α) :=
-  if (col 1 pts).all (fun y => isclose y (PyNum.nat 0)) then pts
-  else (dropFaceRun (dropFaceRun pts).reverse).reverse
+/-- `pts[inner[0] - 1 : inner[-1] + 2]` with `inner` the indices of the ordinates not on the face line (all of `pts` if none) -/
+def stripFaceRuns (f : α → Bool) (pts : List (α × α)) : List (α × α) :=
+  if (col 1 pts).all f then pts
+  else (dropFaceRun f (dropFaceRun f pts).reverse).reverse
 
-def strip (k : StripKind) (pts : List (α × α)) : List (α × α) :=
+/-- boundary stripping of kind `k` with the face predicate `f` (ONE predicate for the whole array: its tolerance is
+    computed from the array as given) -/
+def strip (k : StripKind) (f : α → Bool) (pts : List (α × α)) : List (α × α) :=
   match k with
-  | .bothNeighbours => stripBoth pts
-  | .faceRuns => stripFaceRuns pts
+  | .bothNeighbours => stripBoth f pts
+  | .faceRuns => stripFaceRuns f pts
 
 def shiftX (c : α) (pts : List (α × α)) : List (α × α) := pts.map fun p => (p.1 - c, p.2)
 
@@ -231,11 +257,12 @@ def shiftX (c : α) (pts : List (α × α)) : List (α × α) := pts.map fun p =
 def centred (centre : LTerm) (pts : List (α × α)) : List (α × α) := shiftX (centre.eval pts) pts
 
 /-- the vertex array a `SplineGroove` ends up with -/
-def splinePoints (k : StripKind) (centre : LTerm) (pts : List (α × α)) : List (α × α) := centred centre (strip k pts)
+def splinePoints (k : StripKind) (ft : FaceTest) (centre : LTerm) (pts : List (α × α)) : List (α × α) :=
+  centred centre (strip k (ft.onFace pts) pts)
 
-/-- are the end ordinates accepted (`np.isclose(y[0], 0)` and `np.isclose(y[-1], 0)`) -/
-def splineAccepts (pts : List (α × α)) : Bool :=
-  isclose ((col 1 pts).headD nan) (PyNum.nat 0) && isclose ((col 1 pts).getLastD nan) (PyNum.nat 0)
+/-- are the end ordinates accepted (first and last ordinate on the face line) -/
+def splineAccepts (f : α → Bool) (pts : List (α × α)) : Bool :=
+  f ((col 1 pts).headD nan) && f ((col 1 pts).getLastD nan)
 
 end generic
 
